@@ -89,7 +89,7 @@ def gen_cases(rng, tier):
             if rng.random() < 0.3:
                 src = recvlib.inject_mistakes(rng, src, 1)
             cases.append({"target": x["name"], "src": src, "entry": "meta"})
-    return [recvprop.with_pairs(c) for c in cases]
+    return recvprop.all_with_pairs(cases)
 
 
 def run(tier, seed, replay=None):
